@@ -183,6 +183,10 @@ func runCase(kv chord.KV, seed uint64, G, opsPer int) ([]ev, string) {
 		keys = append(keys, []byte("k1"))
 	}
 	mode := rng.Intn(4) // 0 simple-heavy, 1 children-heavy, 2 lease-heavy, 3 mixed
+	// a third of the cases: every goroutine's FIRST call is the same append of the same child (released together
+	// by the barrier), the rest of the case is as usual
+	burst := rng.Chance(33)
+	burstChild := []byte(hlib.Pick(rng, children))
 	ws := make([]*worker, G)
 	var ready, wg sync.WaitGroup
 	var start atomic.Bool
@@ -196,6 +200,12 @@ func runCase(kv chord.KV, seed uint64, G, opsPer int) ([]ev, string) {
 			for !start.Load() { // spin barrier: all goroutines leave together
 			}
 			for i := 0; i < opsPer; i++ {
+				if i == 0 && burst {
+					w.record(hlib.Hex(keys[0])+"/c", "add "+hlib.Hex(burstChild), func() string {
+						return errTok(w.kv.PrefixAppend(context.Background(), keys[0], burstChild))
+					})
+					continue
+				}
 				key := hlib.Pick(w.rng, keys)
 				comp := mode
 				if mode == 3 || w.rng.Chance(20) {
@@ -276,7 +286,7 @@ func main() {
 		panic(err)
 	}
 	rng := hlib.NewRng(r.Seed)
-	counts := map[string]int{"memory": 600, "aof": 150, "sqlite": 25}
+	counts := map[string]int{"memory": 600, "aof": 150, "sqlite": 40}
 	if r.Thorough() {
 		counts = map[string]int{"memory": 12000, "aof": 2500, "sqlite": 300}
 	}
